@@ -319,7 +319,24 @@ def harness_run(prop, seed, n, tier, only=None, extra=None):
         size = ef.tell()
         ef.seek(max(0, size - 4000))
         tail = ef.read().decode("utf-8", "replace")
+    LAST_ABORT.pop(prop, None)
+    if (p.returncode < 0 or p.returncode == 134) and only is None:
+        # the code under test killed the harness (stack overflow, allocation failure, abort): the case it died in
+        # is the one after the last finished line; regenerate that case alone to confirm
+        with open(cases) as f:
+            k = sum(1 for line in f if line.endswith("\n"))
+        probe = cmd + ["--only", str(k)]
+        try:
+            q = subprocess.run(probe, stdout=subprocess.DEVNULL, stderr=subprocess.DEVNULL, env=ENV, timeout=600)
+            again = q.returncode < 0 or q.returncode == 134
+        except subprocess.TimeoutExpired:
+            again = False
+        LAST_ABORT[prop] = {"signal_or_code": p.returncode, "case_index": k, "reproduced_alone": again,
+                            "replay_cmd": " ".join(probe), "stderr_tail": tail[-1500:]}
     return p.returncode, cases, tail
+
+
+LAST_ABORT = {}
 
 
 def driver_run(prop, cases, mode=None):
@@ -483,6 +500,15 @@ class Report:
                 "distinct_failing_clauses": sorted({c for c, _ in violations}),
                 "failing_cases": len({vv['i'] for _, vv in violations}),
             }
+            replay_path = write_replay(prop, payload)
+            lines.append(f"VIOLATION property={prop} replay={replay_path}")
+            status = 1
+        elif LAST_ABORT.get(prop, {}).get("reproduced_alone"):
+            payload = dict(LAST_ABORT[prop])
+            payload.update({"property": prop, "kind": "implementation-aborts", "clause": "no-panic:abort",
+                            "seed": self.seed, "tier": self.tier,
+                            "note": "the harness process was killed while running this generated case (it calls the "
+                            "real code in-process); the replay command regenerates that one case and dies the same way"})
             replay_path = write_replay(prop, payload)
             lines.append(f"VIOLATION property={prop} replay={replay_path}")
             status = 1
